@@ -33,6 +33,10 @@ RoleActs(s) ==
     \cup {[name |-> n, minter |-> m, auth |-> {s.owner}] : n \in {"AddMinter", "RemoveMinter"}, m \in {"bob", "its0", "carol"}}
     \cup {[name |-> "TransferOwnership", new |-> n, auth |-> {s.owner}] : n \in {"carol", "its0"}}
     \cup {[name |-> "Burn", from |-> "alice", amt |-> 1, auth |-> {"alice"}]}
+    \* declared but unimplemented administrator entries: never move a balance
+    \cup {[name |-> "Clawback", from |-> "alice", amt |-> x, auth |-> au] : x \in {0, 1}, au \in {{s.owner}, {"alice"}, {s.owner, "alice"}}}
+    \cup {[name |-> "SetAuthorized", id |-> "alice", flag |-> FALSE, auth |-> {s.owner}],
+          [name |-> "Authorized", id |-> "alice", auth |-> {}]}
 
 Acts(s) == IF Mode = "roles" THEN RoleActs(s) ELSE LedgerActs(s)
 
